@@ -297,6 +297,11 @@ def lookupZ (k : Int) : List (Int × List (Call α)) → List (Call α)
 def Canvas.renderViewTo (o : Ops α) (view : Mat α) (cv : Canvas α) : List (Call α) :=
   (sortInts (cv.layers.map (·.1))).flatMap (fun k => (lookupZ k cv.layers).map (Call.pre o view))
 
+/-- `src.RenderViewTo(dst, view)` with a Canvas as the target renderer (nested canvases): every
+replayed call is recorded by `dst` under `dst`'s current z-index -/
+def Canvas.renderInto (o : Ops α) (src : Canvas α) (view : Mat α) (dst : Canvas α) : Canvas α :=
+  (src.renderViewTo o view).foldl Canvas.render dst
+
 /-! ## Context -/
 
 def csv (o : Ops α) (cs : CoordSys) (W H : α) : Mat α :=
@@ -416,11 +421,17 @@ inductive Op (α : Type)
   | drawText (x y : α) (t : TextRef α)
   | drawImage (x y : α) (i : ImgRef α) (res : α)
   | fitImage (i : ImgRef α) (r : Rct α) (fit : Nat)
+  -- Fill/Stroke/FillStroke of the Context's current path `p` (built by MoveTo/LineTo/…; the builder is C10's subject)
+  | fill (p : PathRef α)
+  | stroke (p : PathRef α)
+  | fillStroke (p : PathRef α)
   -- operations on the Canvas underneath
   | cvTransform (m : Mat α)
   | cvClip (r : Rct α)
   | cvFit (margin : α)
   | cvReset
+  /-- `cv2 := New(W, H); cv.RenderViewTo(cv2, view)`, and `cv2` becomes the canvas under the Context -/
+  | cvNest (view : Mat α)
 
 def rotMat (o : Ops α) (sn cs : α) : Mat α := ⟨cs, o.neg sn, o.zero, sn, cs, o.zero⟩
 /-- Matrix.Rotate with the sine and cosine supplied -/
@@ -428,8 +439,14 @@ def rotate (o : Ops α) (m : Mat α) (sn cs : α) : Mat α := o.mmul m (rotMat o
 def rotateAbout (o : Ops α) (m : Mat α) (sn cs x y : α) : Mat α :=
   o.translate (rotate o (o.translate m x y) sn cs) (o.neg x) (o.neg y)
 
-def Ctx.withView (c : Ctx α) (v : Mat α) : Ctx α := { c with st := { c.st with view := v } }
 def Ctx.withStyle (c : Ctx α) (s : Style α) : Ctx α := { c with st := { c.st with style := s } }
+
+/-- `Fill()`/`Stroke()`: the paint not wanted is cleared, the current path is drawn at (0,0), and
+the style is put back (the current path is reset: the next one is a new `PathRef`) -/
+def Ctx.drawWith (o : Ops α) (c : Ctx α) (s : Style α) (p : PathRef α) : Ctx α :=
+  ((c.withStyle s).drawPath o o.zero o.zero [p]).withStyle c.st.style
+
+def Ctx.withView (c : Ctx α) (v : Mat α) : Ctx α := { c with st := { c.st with view := v } }
 def Ctx.compose (o : Ops α) (c : Ctx α) (e : Mat α) : Ctx α := c.withView (o.mmul c.st.view e)
 
 def step (o : Ops α) (op : Op α) (c : Ctx α) : Ctx α :=
@@ -471,10 +488,14 @@ def step (o : Ops α) (op : Op α) (c : Ctx α) : Ctx α :=
   | .drawText x y t => c.drawText o x y t
   | .drawImage x y i res => c.drawImage o x y i res
   | .fitImage i r fit => c.fitImage o i r fit
+  | .fill p => c.drawWith o { c.st.style with stroke := Paint.none } p
+  | .stroke p => c.drawWith o { c.st.style with fill := Paint.none } p
+  | .fillStroke p => c.drawPath o o.zero o.zero [p]
   | .cvTransform m => { c with cv := c.cv.transform o m }
   | .cvClip r => { c with cv := c.cv.clip o r }
   | .cvFit margin => { c with cv := c.cv.fit o margin }
   | .cvReset => { c with cv := c.cv.reset }
+  | .cvNest view => { c with cv := c.cv.renderInto o view (newCanvas c.cv.W c.cv.H) }
 
 def run (o : Ops α) : List (Op α) → Ctx α → Ctx α
   | [], c => c
